@@ -55,8 +55,14 @@ def django_env():
         o = models.ForeignKey(Tag, null=True, on_delete=models.CASCADE, related_name="ws")
         class Meta:
             app_label = "vapp"; db_table = "w"
+    class D(models.Model):
+        # referenced through its unique NATURAL key `number`, not its primary key (P.dept: to_field="number")
+        number = models.IntegerField(unique=True); title = models.CharField(max_length=50, null=True)
+        class Meta:
+            app_label = "vapp"; db_table = "d"
     class P(models.Model):
         a = models.IntegerField(null=True); s = models.CharField(max_length=50, null=True)
+        dept = models.ForeignKey(D, null=True, on_delete=models.CASCADE, related_name="emps", to_field="number", db_column="dn")
         o = models.ForeignKey(O, null=True, on_delete=models.CASCADE, related_name="ps")
         w = models.ForeignKey(W, null=True, on_delete=models.CASCADE, related_name="ps")
         tags = models.ManyToManyField(Tag, related_name="ps")
@@ -69,9 +75,9 @@ def django_env():
         class Meta:
             app_label = "vapp"; db_table = "k"
     with connection.schema_editor() as se:
-        for m in (T, O, Tag, W, P, K):
+        for m in (T, O, Tag, W, D, P, K):
             se.create_model(m)
-    _dj.update(T=T, O=O, P=P, K=K, Tag=Tag, W=W, connection=connection)
+    _dj.update(T=T, O=O, P=P, K=K, Tag=Tag, W=W, D=D, connection=connection)
     return _dj
 
 def django_load_scalar(rows):
@@ -81,12 +87,13 @@ def django_load_scalar(rows):
     return T
 
 def django_load_rel(db):
-    env = django_env(); O, P, K, Tag, W = env["O"], env["P"], env["K"], env["Tag"], env["W"]
-    K.objects.all().delete(); P.tags.through.objects.all().delete(); P.objects.all().delete(); W.objects.all().delete(); O.objects.all().delete(); Tag.objects.all().delete()
+    env = django_env(); O, P, K, Tag, W, D = env["O"], env["P"], env["K"], env["Tag"], env["W"], env["D"]
+    K.objects.all().delete(); P.tags.through.objects.all().delete(); P.objects.all().delete(); W.objects.all().delete(); O.objects.all().delete(); Tag.objects.all().delete(); D.objects.all().delete()
+    D.objects.bulk_create([D(id=r["id"], number=r["number"], title=r.get("title")) for r in db.get("d", [])])
     O.objects.bulk_create([O(id=r["id"], n=r.get("n"), name=r.get("name")) for r in db["o"]])
     Tag.objects.bulk_create([Tag(id=r["id"], label=r.get("label")) for r in db["tag"]])
     W.objects.bulk_create([W(id=r["id"], o_id=r.get("o_id")) for r in db.get("w", [])])
-    P.objects.bulk_create([P(id=r["id"], a=r.get("a"), s=r.get("s"), o_id=r.get("o_id"), w_id=r.get("w_id")) for r in db["p"]])
+    P.objects.bulk_create([P(id=r["id"], a=r.get("a"), s=r.get("s"), o_id=r.get("o_id"), w_id=r.get("w_id"), dept_id=r.get("dn")) for r in db["p"]])
     K.objects.bulk_create([K(id=r["id"], x=r.get("x"), p_id=r["p_id"], o_id=r.get("o_id")) for r in db["k"]])
     Th = P.tags.through
     Th.objects.bulk_create([Th(p_id=a, tag_id=b) for a, b in db["p_tags"]])
@@ -124,9 +131,15 @@ def sa_env():
         o_id = sa.Column(sa.ForeignKey("tag.id"), nullable=True)
         o = relationship("Tag", back_populates="ws")
         ps = relationship("P", back_populates="w")
+    class D(Base):
+        __tablename__ = "d"
+        id = sa.Column(sa.Integer, primary_key=True); number = sa.Column(sa.Integer, unique=True, nullable=False); title = sa.Column(sa.String)
+        emps = relationship("P", back_populates="dept")
     class P(Base):
         __tablename__ = "p"
         id = sa.Column(sa.Integer, primary_key=True); a = sa.Column(sa.Integer); s = sa.Column(sa.String)
+        dn = sa.Column(sa.ForeignKey("d.number"), nullable=True)
+        dept = relationship("D", back_populates="emps")
         o_id = sa.Column(sa.ForeignKey("o.id"), nullable=True)
         o = relationship("O", back_populates="ps")
         w_id = sa.Column(sa.ForeignKey("w.id"), nullable=True)
@@ -141,7 +154,7 @@ def sa_env():
         o = relationship("O", back_populates="ks")
     eng = sa.create_engine("sqlite://")
     Base.metadata.create_all(eng)
-    _sa.update(sa=sa, Base=Base, T=T, O=O, P=P, K=K, Tag=Tag, W=W, p_tags=p_tags, engine=eng, Session=Session, t_table=T.__table__, p_table=P.__table__)
+    _sa.update(sa=sa, Base=Base, T=T, O=O, P=P, K=K, Tag=Tag, W=W, D=D, p_tags=p_tags, engine=eng, Session=Session, t_table=T.__table__, p_table=P.__table__)
     return _sa
 
 def sa_load_scalar(rows):
@@ -155,8 +168,10 @@ def sa_load_scalar(rows):
 def sa_load_rel(db):
     env = sa_env()
     with env["engine"].begin() as c:
-        for tbl in (env["p_tags"], env["K"].__table__, env["P"].__table__, env["W"].__table__, env["O"].__table__, env["Tag"].__table__):
+        for tbl in (env["p_tags"], env["K"].__table__, env["P"].__table__, env["W"].__table__, env["O"].__table__, env["Tag"].__table__, env["D"].__table__):
             c.execute(tbl.delete())
+        if db.get("d"):
+            c.execute(env["D"].__table__.insert(), [{"id": r["id"], "number": r["number"], "title": r.get("title")} for r in db["d"]])
         if db["o"]:
             c.execute(env["O"].__table__.insert(), [{"id": r["id"], "n": r.get("n"), "name": r.get("name")} for r in db["o"]])
         if db["tag"]:
@@ -164,7 +179,7 @@ def sa_load_rel(db):
         if db.get("w"):
             c.execute(env["W"].__table__.insert(), [{"id": r["id"], "o_id": r.get("o_id")} for r in db["w"]])
         if db["p"]:
-            c.execute(env["P"].__table__.insert(), [{"id": r["id"], "a": r.get("a"), "s": r.get("s"), "o_id": r.get("o_id"), "w_id": r.get("w_id")} for r in db["p"]])
+            c.execute(env["P"].__table__.insert(), [{"id": r["id"], "a": r.get("a"), "s": r.get("s"), "o_id": r.get("o_id"), "w_id": r.get("w_id"), "dn": r.get("dn")} for r in db["p"]])
         if db["k"]:
             c.execute(env["K"].__table__.insert(), [{"id": r["id"], "x": r.get("x"), "p_id": r["p_id"], "o_id": r.get("o_id")} for r in db["k"]])
         if db["p_tags"]:
